@@ -6,7 +6,323 @@ pub fn mvv_lva() -> Vec<Vec<u64>> {
     move_orderer::rce_verif_tables()
 }
 
-pub fn main(_args: &[String]) {
-    eprintln!("search helper: no command");
+/// switched on by the `cmp` command: the hook placed at the entry of the inner search then empties the cache
+/// ("result caching neutralised" in the sense of property C11)
+pub static CACHE_OFF: AtomicBool = AtomicBool::new(false);
+
+pub fn cache_off_hook() {
+    if CACHE_OFF.load(Ordering::Relaxed) {
+        // a fresh (small) table instead of clear(): clearing is linear in the capacity of the pre-sized table
+        let mut t = TRANSPOSITION_TABLE.write().expect("table");
+        if !t.is_empty() {
+            *t = crate::board::transposition_table::TranspositionTable::default();
+        }
+    }
+}
+
+#[cfg(rce_verif_search2)]
+mod replay {
+    use super::super::*;
+    use super::CACHE_OFF;
+    use crate::evaluate::simple_evaluator::SimpleEvaluator;
+    use crate::evaluate::Evaluator;
+    use crate::board::piece::Kind;
+
+    fn neg(s: Score) -> Score {
+        s.saturating_neg()
+    }
+
+    // The reference is a textbook fail-soft alpha-beta in i32 (natural move order, no null windows, no cache, no killers):
+    // its root value equals plain minimax; plain minimax itself is unaffordable in the capture-only quiescence.
+
+    /// capture-only quiescence with stand-pat
+    fn ref_q(board: &mut Board, mut alpha: i32, beta: i32) -> i32 {
+        let mut best = i32::from(SimpleEvaluator.evaluate(board));
+        if best >= beta {
+            return best;
+        }
+        alpha = alpha.max(best);
+        let mut caps: Vec<Ply> = board.get_legal_moves().into_iter().filter(Ply::is_capture).collect();
+        // most valuable victim first: ordering only (it cannot change a fail-soft alpha-beta's value), keeps the tree affordable
+        caps.sort_by_key(|m| match m.captured_piece {
+            Some(Kind::Queen(_)) => 0,
+            Some(Kind::Rook(_)) => 1,
+            Some(Kind::Bishop(_) | Kind::Knight(_)) => 2,
+            _ => 3,
+        });
+        for mv in caps {
+            board.make_move(mv);
+            let s = -ref_q(board, -beta, -alpha);
+            board.unmake_move();
+            if s > best {
+                best = s;
+                if s >= beta {
+                    break;
+                }
+                alpha = alpha.max(s);
+            }
+        }
+        best
+    }
+
+    /// the engine's own look-ahead game (the reference of property C11)
+    fn ref_ab(board: &mut Board, depth: u32, ply: i32, mut alpha: i32, beta: i32) -> i32 {
+        if board.get_halfmove_clock() >= 100 {
+            return 0;
+        }
+        if board.position_reached(board.zkey) {
+            return 0;
+        }
+        let in_check = board.is_in_check(board.current_turn);
+        let d = depth + u32::from(in_check);
+        if d == 0 {
+            return ref_q(board, alpha, beta);
+        }
+        let moves = board.get_legal_moves();
+        if moves.is_empty() {
+            return if in_check { i32::from(Score::MIN) + ply } else { 0 };
+        }
+        let mut best = -1_000_000;
+        for mv in moves {
+            board.make_move(mv);
+            let s = -ref_ab(board, d - 1, ply + 1, -beta, -alpha);
+            board.unmake_move();
+            if s > best {
+                best = s;
+                if s >= beta {
+                    break;
+                }
+                alpha = alpha.max(s);
+            }
+        }
+        best
+    }
+
+    fn setup(args: &[String]) -> Option<Board> {
+        // <6 fen fields> [moves m1 m2 ...]
+        if args.len() < 6 {
+            return None;
+        }
+        let fen = args[..6].join(" ");
+        let mut board = Board::from_fen(&fen);
+        if args.len() > 7 {
+            for w in &args[7..] {
+                let mv = board.find_move(w).ok()?;
+                board.make_move(mv);
+            }
+        }
+        Some(board)
+    }
+
+    /// cmp <depth> <fen..> [moves ..]: real fixed-depth search with the cache neutralised vs the reference
+    pub fn cmp(args: &[String]) {
+        let depth: u8 = args[0].parse().expect("depth");
+        let Some(mut board) = setup(&args[1..]) else {
+            println!("BAD position");
+            return;
+        };
+        let legal = board.get_legal_moves();
+        if legal.is_empty() {
+            println!("OK nomoves");
+            return;
+        }
+        // reference: value of every root move
+        // reference root value: max over the root moves (the window narrows from move to move, values below it are bounds)
+        let mut ref_root = -1_000_000;
+        for mv in &legal {
+            board.make_move(*mv);
+            let s = -ref_ab(&mut board, u32::from(depth) - 1, 1, -1_000_000, -ref_root);
+            board.unmake_move();
+            ref_root = ref_root.max(s);
+        }
+        TRANSPOSITION_TABLE.write().expect("table").clear();
+        CACHE_OFF.store(true, Ordering::Relaxed);
+        let mut search = Search::new(&board, None);
+        search.search(&SimpleEvaluator, Some(depth));
+        CACHE_OFF.store(false, Ordering::Relaxed);
+        let entry = TRANSPOSITION_TABLE.read().expect("table").get(&board.zkey).copied();
+        let (score, mv) = match (search.info.best_score, search.info.best_move) {
+            (Some(s), Some(m)) => (s, m.to_notation()),
+            _ => {
+                println!("OK noresult");
+                return;
+            }
+        };
+        // the exact value of the move the engine picked (full window), if it is a legal move
+        let mv_val = legal.iter().find(|m| m.to_notation() == mv).map(|m| {
+            board.make_move(*m);
+            let s = -ref_ab(&mut board, u32::from(depth) - 1, 1, -1_000_000, 1_000_000);
+            board.unmake_move();
+            s
+        });
+        let (escore, emv) = entry.map_or((None, None), |e| (Some(e.score), Some(e.best_ply.to_notation())));
+        println!(
+            "OK cmp real_score {} real_move {} ref_root {} ref_value_of_real_move {} entry_score {} entry_move {} nodes {}",
+            score,
+            mv,
+            ref_root,
+            mv_val.map_or("illegal".to_string(), |v| v.to_string()),
+            escore.map_or("none".to_string(), |v| v.to_string()),
+            emv.unwrap_or_else(|| "none".to_string()),
+            search.info.nodes
+        );
+    }
+
+    // ---- mate oracle (property C12): exhaustive, rules only
+
+    fn is_mate(board: &mut Board) -> bool {
+        board.get_legal_moves().is_empty() && board.is_in_check(board.current_turn)
+    }
+
+    fn mates_in_one(board: &mut Board) -> Vec<Ply> {
+        let mut out = vec![];
+        for mv in board.get_legal_moves() {
+            board.make_move(mv);
+            if is_mate(board) {
+                out.push(mv);
+            }
+            board.unmake_move();
+        }
+        out
+    }
+
+    /// side to move can force mate within two of its own moves
+    fn forced_mate_in_two(board: &mut Board) -> bool {
+        if !mates_in_one(board).is_empty() {
+            return true;
+        }
+        for mv in board.get_legal_moves() {
+            board.make_move(mv);
+            let ok = keeps_forced_mate(board);
+            board.unmake_move();
+            if ok {
+                return true;
+            }
+        }
+        false
+    }
+
+    /// opponent to move: every reply allows a mate in one (and there is a reply; mate itself also counts)
+    fn keeps_forced_mate(board: &mut Board) -> bool {
+        if is_mate(board) {
+            return true;
+        }
+        let replies = board.get_legal_moves();
+        if replies.is_empty() {
+            return false; // stalemate
+        }
+        for r in replies {
+            board.make_move(r);
+            let m = !mates_in_one(board).is_empty();
+            board.unmake_move();
+            if !m {
+                return false;
+            }
+        }
+        true
+    }
+
+    /// after this move the opponent has a mate in one
+    fn allows_mate_in_one(board: &mut Board, mv: Ply) -> bool {
+        board.make_move(mv);
+        let m = !mates_in_one(board).is_empty();
+        board.unmake_move();
+        m
+    }
+
+    /// mates <d1,d2,..> <fen..>: searches of the same position at the given depths in this order, cache kept between them;
+    /// after each: is the chosen move acceptable to the mate oracle?
+    pub fn mates(args: &[String]) {
+        let depths: Vec<u8> = args[0].split(',').map(|d| d.parse().expect("depth")).collect();
+        let Some(mut board) = setup(&args[1..]) else {
+            println!("BAD position");
+            return;
+        };
+        let legal = board.get_legal_moves();
+        if legal.is_empty() {
+            println!("OK nomoves");
+            return;
+        }
+        let m1 = mates_in_one(&mut board);
+        let m2 = m1.is_empty() && forced_mate_in_two(&mut board);
+        let bad: Vec<Ply> = legal.iter().copied().filter(|m| allows_mate_in_one(&mut board, *m)).collect();
+        let avoidable = !bad.is_empty() && bad.len() < legal.len();
+        let class = if !m1.is_empty() {
+            "mate1"
+        } else if m2 {
+            "mate2"
+        } else if avoidable {
+            "avoid"
+        } else {
+            "none"
+        };
+        if class == "none" {
+            println!("OK class none");
+            return;
+        }
+        TRANSPOSITION_TABLE.write().expect("table").clear();
+        let mut verdicts = vec![];
+        for d in depths {
+            let mut search = Search::new(&board, None);
+            search.search(&SimpleEvaluator, Some(d));
+            let Some(mv) = search.info.best_move else {
+                verdicts.push(format!("{d}:nomove:BAD"));
+                continue;
+            };
+            let good = match class {
+                "mate1" => m1.contains(&mv),
+                "mate2" => {
+                    board.make_move(mv);
+                    let k = keeps_forced_mate(&mut board);
+                    board.unmake_move();
+                    k
+                }
+                _ => !bad.contains(&mv),
+            };
+            verdicts.push(format!("{}:{}:{}", d, mv.to_notation(), if good || d < 3 { "ok" } else { "BAD" }));
+        }
+        println!("OK class {} {}", class, verdicts.join(" "));
+    }
+
+    /// playout <seed> <plies> <fen..>: a pseudo-random legal game from the position; prints the FEN-less move list so that
+    /// the caller can address every position on the way as `<fen> moves ...`
+    pub fn playout(args: &[String]) {
+        let mut x: u64 = args[0].parse().expect("seed");
+        let n: usize = args[1].parse().expect("plies");
+        let Some(mut board) = setup(&args[2..]) else {
+            println!("BAD position");
+            return;
+        };
+        let mut out = vec![];
+        for _ in 0..n {
+            let legal = board.get_legal_moves();
+            if legal.is_empty() {
+                break;
+            }
+            x = x.wrapping_mul(6364136223846793005).wrapping_add(1442695040888963407);
+            let mv = legal[((x >> 33) as usize) % legal.len()];
+            out.push(mv.to_notation());
+            board.make_move(mv);
+        }
+        println!("OK playout {}", out.join(" "));
+    }
+}
+
+pub fn main(args: &[String]) {
+    let cmd = args.first().map(String::as_str).unwrap_or("");
+    #[cfg(rce_verif_search2)]
+    {
+        match cmd {
+            "cmp" => return replay::cmp(&args[1..]),
+            "mates" => return replay::mates(&args[1..]),
+            "playout" => return replay::playout(&args[1..]),
+            _ => {}
+        }
+    }
+    if cmd == "have" {
+        println!("OK {} {}", cfg!(rce_verif_search2), cfg!(rce_verif_cachehook));
+        return;
+    }
+    eprintln!("search helper: no command {cmd}");
     std::process::exit(3);
 }
